@@ -177,12 +177,24 @@ let handle (i : string list) (o : string list) =
     let dropped = ref false in
     let impl_panic = ref false in
     let c17_fail = ref None in
+    let after_cleanup = ref false in
     let got_syms = ref [] in
     let fdt_pkts = ref [] in
     let max_ledger = ref 0 in
     let nev = ref 0 in
     let last_model_q = ref (0, 0) in
-    List.iter (fun tok ->
+    let oarr = Array.of_list o in
+    (* the (objects, failed) counts the implementation reports after the event at position i *)
+    let next_q i =
+      let r = ref None in
+      (try for j = i + 1 to Array.length oarr - 1 do
+           match split_tilde oarr.(j) with
+           | ["Q"; a; b] -> r := Some (int_of_string a, int_of_string b); raise Exit
+           | ("D" | "U" | "K" | "Z") :: _ -> raise Exit
+           | _ -> ()
+         done with Exit -> ());
+      !r in
+    Array.iteri (fun tok_i tok ->
       match split_tilde tok with
       | "F" :: _ | "G" :: _ | "A" :: _ | "R" :: _ -> ()
       | "c" :: "M" :: toi :: n :: fields -> Hashtbl.replace wmeta (toi, n) (parse_meta fields)
@@ -212,6 +224,10 @@ let handle (i : string list) (o : string list) =
                                 (int_of_n (recv_ledger !st)) (int_of_n (recv_items !st)))
         end
       | ["Q"; nbobj; nberr] ->
+        if !diff = None && !after_cleanup && prop = "c17" && !c17_fail = None
+           && not (p_C17_cleanup_releases (n_of_int (fst !last_model_q)) (n_of_int (int_of_string nbobj))) then
+          c17_fail := Some (Printf.sprintf "P_C17_cleanup_releases@ev%d:held=%s:expected_at_most=%d" !nev nbobj (fst !last_model_q));
+        after_cleanup := false;
         if !diff = None && !last_model_q <> (int_of_string nbobj, int_of_string nberr) then
           diff := Some (Printf.sprintf "ev%d:queries:model=%d,%d" !nev (fst !last_model_q) (snd !last_model_q))
       | ev ->
@@ -238,8 +254,23 @@ let handle (i : string list) (o : string list) =
               (RvPush (p, now), res)
             | ["U"; res] -> (RvUnparsable, res)
             | ["K"; _; eo; ef; res] ->
-              let l s = if s = "-" then [] else List.map n_of_hex (String.split_on_char ',' s) in
-              (RvCleanup (now, l eo, l ef), res)
+              (* entries marked '?' : the idle time could not be decided from outside the receiver
+                 (it lies within the duration of a call): either answer is accepted - the subset
+                 that reproduces the counts the implementation reports is taken *)
+              let items s = if s = "-" then [] else String.split_on_char ',' s in
+              let certain s = List.filter_map (fun x -> if String.contains x '?' then None else Some (n_of_hex x)) (items s) in
+              let unsure s = List.filter_map (fun x -> if String.contains x '?' then Some (n_of_hex (String.sub x 0 (String.length x - 1))) else None) (items s) in
+              let uo = unsure eo and uf = unsure ef in
+              let rec subsets = function [] -> [[]] | x :: r -> let ss = subsets r in ss @ List.map (fun l -> x :: l) ss in
+              let cands = if List.length uo + List.length uf > 8 then [([], [])] else
+                  List.concat_map (fun a -> List.map (fun b -> (a, b)) (subsets uf)) (subsets uo) in
+              let target = next_q tok_i in
+              let pick = (try List.find (fun (a, b) ->
+                  let ((_, s1), _) = recv_step env parse_fdt cfg !st (RvCleanup (now, certain eo @ a, certain ef @ b)) !ctx in
+                  Some (List.length s1.rv_objects, List.length s1.rv_error) = target) cands
+                 with Not_found -> ([], [])) in
+              after_cleanup := true;
+              (RvCleanup (now, certain eo @ fst pick, certain ef @ snd pick), res)
             | ["Z"; res] -> dropped := true; (RvDrop, res)
             | _ -> failwith ("event " ^ tok)) in
         if ires = "PANIC" then impl_panic := true;
@@ -255,7 +286,7 @@ let handle (i : string list) (o : string list) =
               (List.length s1.rv_objects) (List.length s1.rv_error) (List.length s1.rv_completed) (List.length c1.c_log);
           st := s1; ctx := { c1 with c_panic = false };
           last_model_q := (List.length s1.rv_objects, List.length s1.rv_error)
-        end) o;
+        end) oarr;
     (* per-writer call sequences: implementation vs model *)
     let keys = Hashtbl.fold (fun k _ acc -> k :: acc) impl_calls [] in
     let canon cs =
